@@ -116,8 +116,11 @@ pub(crate) fn find_function_name_position(
     func_name: &str,
 ) -> (usize, usize) {
     if let Some(line_content) = content.lines().nth(line.saturating_sub(1)) {
-        // Look for "def function_name" pattern
-        if let Some(def_pos) = line_content.find("def ") {
+        // Look for "def function_name" pattern (the keyword may be followed by a tab)
+        if let Some(def_pos) = line_content
+            .find("def ")
+            .or_else(|| line_content.find("def\t"))
+        {
             let after_def = &line_content[def_pos + 4..];
             if let Some(name_pos) = after_def.find(func_name) {
                 let start_char = def_pos + 4 + name_pos;
